@@ -253,6 +253,9 @@ class LazyList:
 
     @lazylist
     def reversed(self):
-        self.generated += list(itertools.tee(self.raw_object)[-1])
+        # Force the rest of the list through the normal cursor: tee() of a
+        # source that is itself a tee (every copy is) only clones it, which
+        # left the cursor behind and made later reads append the tail again.
+        self.listify()
         for item in self.generated[::-1]:
             yield item
